@@ -278,7 +278,7 @@ pub fn invalid_frame(rng: &mut SmallRng, opaque: u32) -> Frame {
         2 => f.data_type = *[1u8, 2, 0xff].choose(rng).unwrap(),
         3 => {
             // key longer than 250
-            let key: Vec<u8> = (0..*[251usize, 252, 300, 1000].choose(rng).unwrap()).map(|_| b'k').collect();
+            let key: Vec<u8> = (0..*[251usize, 252, 256, 300, 506, 512, 1000].choose(rng).unwrap()).map(|_| b'k').collect();
             f = Frame::consistent(*[0x00u8, 0x04].choose(rng).unwrap(), &[], &key, &[], opaque, 0);
         }
         4 => {
@@ -409,7 +409,8 @@ pub fn gen_stream(profile: &str, name: &str, rng: &mut SmallRng) -> Stream {
 /// The boundary grid of header fields (C10): one frame per combination, followed by a sentinel noop.
 pub fn grid_streams(limit: u32, opcodes: &[u8]) -> Vec<Stream> {
     let mut out = Vec::new();
-    let kls: [u16; 6] = [0, 1, 2, 250, 251, 65535];
+    // around the 250-byte limit, around 2^8 (a length checked in the wrong width), near 2^16 (key + extras overflow)
+    let kls: [u16; 11] = [0, 1, 2, 250, 251, 256, 300, 506, 512, 65528, 65535];
     let els: [u8; 7] = [0, 4, 8, 20, 21, 24, 255];
     let mut opq = 0u32;
     for &op in opcodes {
@@ -417,6 +418,10 @@ pub fn grid_streams(limit: u32, opcodes: &[u8]) -> Vec<Stream> {
         let high = op >= 0x25;
         for &kl in &kls {
             if high && !(kl == 0 || kl == 251) {
+                continue;
+            }
+            // the wider key lengths only with the opcodes that take a key (and two others)
+            if kl > 251 && kl < 65535 && !matches!(op, 0x00 | 0x01 | 0x04 | 0x05 | 0x0e | 0x0a | 0x08 | 0x1c | 0x09 | 0x11) {
                 continue;
             }
             for &el in &els {
